@@ -95,6 +95,59 @@ def limit_tests(body, adt, buf_field):
     return out
 
 
+def flag_guarded(body, b, lt):
+    """`let full = ..; if full && len >= MAX { return Err(BufferOverflow) } if full { grow }`: the limit test does not dominate the
+    growth, but both sit on the true edge of a switch on the same evaluation of one flag.  Accepted when
+      * S1 (guarding the limit test) and S2 (guarding the growth) switch on copies of the value of one statement D,
+      * S1 dominates S2 and D cannot run again between the last S1 and S2 (D is in S1's block, or S2 is not reachable from D avoiding S1),
+      * the limit test is only on S1's true side, the growth only on S2's true side,
+      * from S1's true edge S2 is reached only through the limit test, and not through its over-limit edge,
+      * the over-limit edge reaches a BufferOverflow construction.
+    Every path to the growth then took the below-limit edge after the flag was last computed."""
+    def origin(sw):
+        tr_ = body.trace(body.term(sw).get('op'))
+        if tr_.get('kind') == 'bin' and tr_.get('block') is not None:
+            return (tr_.get('block'), tr_.get('stmt'))
+        return None
+
+    def bool_switches():
+        for s_ in range(body.n):
+            if body.is_cleanup(s_) or body.term(s_)['k'] != 'switch' or body.term(s_).get('op_ty') != 'bool':
+                continue
+            i_ = body.switch_info(s_)
+            if i_ and 'true' in i_ and 'false' in i_:
+                yield s_, i_['true'], i_['false']
+
+    def true_side_only(s_, t_, f_, x):
+        return body.dominates(s_, x) and x in body.reachable(t_, avoid={s_}) and x not in body.reachable(f_, avoid={s_})
+
+    sws = list(bool_switches())
+    ov = [x for x, i, s in C.aggr_adt_sites(body, 'error::Error', 'BufferOverflow')]
+    for sw, below, over in lt:
+        if not any(x in body.reachable(over) for x in ov):
+            continue
+        for s2, t2, f2 in sws:
+            o2 = origin(s2)
+            if o2 is None or s2 == sw or not true_side_only(s2, t2, f2, b):
+                continue
+            for s1, t1, f1 in sws:
+                if s1 in (s2, sw) or origin(s1) != o2 or not body.dominates(s1, s2) or not true_side_only(s1, t1, f1, sw):
+                    continue
+                dblk = o2[0]
+                if dblk != s1 and s2 in body.reachable(dblk, avoid={s1}):
+                    continue
+                if not body.dominates(dblk, s1):
+                    continue
+                if s2 in body.reachable(t1, avoid={sw, s1}):
+                    continue
+                if s2 in body.reachable(over, avoid={s1}):
+                    continue
+                if s2 not in body.reachable(below, avoid={s1}):
+                    continue
+                return True
+    return False
+
+
 def check_crate(fx, rep, crate, cfg):
     n_growth = 0
     del nonstrict[:]
@@ -126,6 +179,8 @@ def check_crate(fx, rep, crate, cfg):
                             ov = [x for x, i, s in C.aggr_adt_sites(body, 'error::Error', 'BufferOverflow')]
                             if any(x in body.reachable(over) for x in ov):
                                 ok = True
+                    if not ok:
+                        ok = flag_guarded(body, b, lt)
                     key = '%s|growth|%s|%s' % (body.path, t['callee']['name'], cfg)
                     rep.check(ok, 'R17.1', key, C.where(body, b),
                               'growth of %s.%s is dominated by the below-limit edge of a len-vs-MAX_BUFFER_SIZE test whose other edge returns BufferOverflow' % (adt.split('::')[-1], bf),
